@@ -65,12 +65,14 @@ type env struct {
 	sigs    []string
 	failed  bool
 	callBad bool
-	shapes  []string
 	info    map[string]interface{}
 	readRot int
 	emitted map[string]bool
 	// set once the corresponding deviation was reported in this database, so that the rest of the
 	// plan still exercises everything else
+	current        string // the call in progress (for panic attribution)
+	fs             string
+	allSet         bool // the first Create of a database sets every embedded pointer
 	gapOK          bool
 	noNilSerGroups bool
 	modelMapBroken bool
@@ -185,7 +187,7 @@ func (e *env) newRec(shape string, idx int, keyMode string, fnZero map[int]bool,
 	rc := &rec{shape: shape, idx: idx, payload: e.nextPayload(), given: make([]reflect.Value, len(m.leaves)), exp: make([]expect, len(m.leaves)), nilGrp: map[string]bool{}}
 	if !forMap {
 		for _, g := range m.groups {
-			rc.nilGrp[g] = r.Chance(1, 3)
+			rc.nilGrp[g] = r.Chance(1, 3) && !e.allSet
 		}
 		for _, l := range m.leaves {
 			// a function-default leaf that this call sets non-zero must exist in every record;
@@ -416,7 +418,11 @@ func (e *env) checkStored(rc *rec, mixed bool) bool {
 	m := e.m
 	rows, err := vdb.RowMaps(e.h.SQL, "SELECT * FROM `"+m.table+"` WHERE "+e.pkWhere(), rc.pkArgs...)
 	if err != nil {
-		e.problem("raw-read", "raw SELECT by key %v: %v", rc.pkArgs, err)
+		sig := "raw-read"
+		if mixed {
+			sig = e.keySig(rc, mixed) // e.g. an in-memory uint64 key that wrapped below zero cannot even be bound
+		}
+		e.problem(sig, "raw SELECT by the in-memory key %v: %v", rc.pkArgs, err)
 		rc.keyBad = true
 		return false
 	}
@@ -568,6 +574,8 @@ func (e *env) checkReads(rc *rec) {
 	}
 }
 
+var widthRe = regexp.MustCompile(`\b(u?int)\d+\b`)
+
 var scanErrCol = regexp.MustCompile(`Scan error on column index \d+, name "([^"]+)"`)
 
 // mapErrSig classifies an error of a map read: a scan error on the column of a serializer field
@@ -603,6 +611,7 @@ func (e *env) liftBig() {
 func (e *env) runStructShape(shape string, forceKey string) {
 	r := e.r
 	m := e.m
+	e.current = "Create/" + shape
 	if forceKey == "" {
 		e.liftBig()
 	}
@@ -743,7 +752,7 @@ func (e *env) runStructShape(shape string, forceKey string) {
 		e.flush()
 		return
 	}
-	e.shapes = append(e.shapes, shape+"/"+callMode)
+	e.c.Shape(e.fs, e.opt, shape+"/"+callMode)
 	e.c.Inc("creates_" + recs[0].shape)
 	if m.auto != nil {
 		e.c.Inc("keymode_" + callMode)
@@ -780,6 +789,7 @@ func (e *env) mapValue(l *leaf, gv reflect.Value) interface{} {
 func (e *env) runMapShape(shape string) {
 	r := e.r
 	m := e.m
+	e.current = "Create/" + shape
 	e.liftBig()
 	n := 1
 	if strings.HasPrefix(shape, "maps") {
@@ -840,7 +850,7 @@ func (e *env) runMapShape(shape string) {
 	e.callBad = false
 	if res.Error != nil {
 		e.ops[len(e.ops)-1] += fmt.Sprintf("  -> error: %v", res.Error)
-		e.problem("create-error/"+shape, "Create returned %v", res.Error)
+		e.problem("create-error/"+shape+"/"+e.opt, "Create returned %v", res.Error)
 		e.flush()
 		return
 	}
@@ -887,7 +897,7 @@ func (e *env) runMapShape(shape string) {
 	} else if m.auto == nil {
 		km = "given"
 	}
-	e.shapes = append(e.shapes, fmt.Sprintf("%s/n%d/%s", shape, n, km))
+	e.c.Shape(e.fs, e.opt, fmt.Sprintf("%s/n%d/%s", shape, n, km))
 	e.c.Inc("creates_" + shape)
 }
 
@@ -901,6 +911,7 @@ func clip60(s string) string {
 // finalFind loads the whole table through gorm and compares every record created in this database.
 func (e *env) finalFind() {
 	m := e.m
+	e.current = "Find"
 	e.callBad = false
 	byPayload := map[string]*rec{}
 	for _, rc := range e.all {
@@ -1019,11 +1030,15 @@ func runEnv(c *core.Ctx, m *model, o optSpec, feats []string, info map[string]in
 			if e != nil {
 				d["operations"] = e.ops
 			}
-			c.Violation("panic/"+msg, d)
+			shape := "?"
+			if e != nil {
+				shape = e.current
+			}
+			c.Violation("panic/"+shape+": "+widthRe.ReplaceAllString(msg, "$1"), d)
 			ok = false
 		}
 	}()
-	e = &env{c: c, r: c.R.Fork(), h: h, m: m, opt: o.name, ret: !o.o.NoReturning, firstID: o.o.FirstID, viol: map[string][]string{}, emitted: map[string]bool{}, big: 1000, info: info}
+	e = &env{c: c, r: c.R.Fork(), h: h, m: m, opt: o.name, ret: !o.o.NoReturning, firstID: o.o.FirstID, viol: map[string][]string{}, emitted: map[string]bool{}, big: 1000, info: info, fs: strings.Join(feats, ",")}
 	c.Logf("MODE %s table %s", o.name, m.table)
 	if err := e.tx().AutoMigrate(e.newModelPtr()); err != nil {
 		e.op("%s.AutoMigrate(&T{}) -> %v", e.recv(), err)
@@ -1055,7 +1070,10 @@ func runEnv(c *core.Ctx, m *model, o optSpec, feats []string, info map[string]in
 	plan = append(plan, mapShapes...)
 	plan = append(plan, core.Pick(e.r, structShapes[1:]))
 	p := e.r.Perm(len(plan))
-	// a single Create goes first: a panic inside gorm is then met outside a Transaction block
+	// a single Create with every field reachable goes first: a panic inside gorm (a Valuer or
+	// serializer that cannot handle the field's kind) is then met outside a Transaction block, where
+	// database/sql would dead-lock in the deferred Rollback
+	e.allSet = true
 	if m.auto != nil {
 		// an explicit key above the sequence start leaves keys 1..49 free for later "gap" presets
 		e.big = 42
@@ -1065,6 +1083,7 @@ func runEnv(c *core.Ctx, m *model, o optSpec, feats []string, info map[string]in
 	} else {
 		e.runStructShape("single", "")
 	}
+	e.allSet = false
 	for _, i := range p {
 		if plan[i] == "maps" {
 			continue
@@ -1083,12 +1102,8 @@ func runEnv(c *core.Ctx, m *model, o optSpec, feats []string, info map[string]in
 	if e.failed {
 		return false
 	}
-	fs := strings.Join(feats, ",")
-	for _, s := range e.shapes {
-		c.Shape(fs, o.name, s)
-	}
-	c.Inc("databases_ok")
-	if c.WantSample() && o.name == "returning" && c.Case%5 == 0 {
+	c.Inc("databases_without_any_problem")
+	if c.WantSample() && c.Case%5 == 0 {
 		ops := e.ops
 		if len(ops) > 4 {
 			ops = ops[:4]
@@ -1132,7 +1147,8 @@ var Engine = &core.Engine{
 		"database-function defaults, default:null, autoCreateTime/autoUpdateTime (time, s, ms, ns; by tag and by name), not null, <- permissions; value- and pointer-embedded structs with " +
 		"embeddedPrefix, nested; keys: auto-increment (8 integer kinds, explicit/implicit/renamed), non-auto int, string, composite of 2 and 3) or, every 8th case, one of 3 static models " +
 		"(anonymous value/pointer embedding, gorm.Model, TableName, anonymous embeddedPrefix); each model x {RETURNING, LastInsertId reversed, LastInsertId first-id} on a fresh database x " +
-		"11 Create calls (single, &[]T, &[]*T, []*T, CreateInBatches over values/pointers with batch 1..n+1, map, &map, []map, &[]map; auto keys zero / preset / mixed) with boundary values; " +
+		"12 Create calls (single first, then in random order single, &[]T, &[]*T, []*T, CreateInBatches over values/pointers with batch 1..n+1, map, &map, &[]map, one more slice shape, and []map by value last; " +
+		"auto keys zero / explicit / mixed within one slice) with boundary values, then Find of the whole table into []T, []*T and []map with and without Model; " +
 		"distinct = (feature set of the model, back-fill mode, create shape incl. slice length, batch size and key mode); non-trivial = the Create succeeded, every record's row was found by " +
 		"its in-memory key with raw SQL, and every column and every gorm read (First/Take/Find into structs and maps) was compared",
 	Assumptions: []string{
@@ -1147,12 +1163,14 @@ var Engine = &core.Engine{
 		"without RETURNING a database-function default need only be readable afterwards, not back-filled into the in-memory record",
 		"gob-serialized values never contain empty non-nil slices/maps (gob does not distinguish them from nil) and are never nil pointers (gob refuses them)",
 		"RowsAffected is not part of the statement and is not checked",
+		"the first Create of every database is a single record with every embedded pointer set, and Create([]map) by value runs last: where gorm panics the handle is abandoned, and inside CreateInBatches a panic would dead-lock database/sql's Rollback",
+		"a deviation class already reported in a database is counted, not reported again, and the harness then stops provoking it there (nil embedded pointers above gob/unixtime fields, Model-bound map reads of serializer models) so that the remaining checks still run",
 	},
 	Cases: func(tier string) int {
 		if tier == "thorough" {
-			return 6000
+			return 40000
 		}
-		return 400
+		return 3000
 	},
 	Batch:         func(string) int { return 25 },
 	ChildTimeoutS: 300,
